@@ -13,9 +13,10 @@ RULE = (
     "level-first/root-first/level-only/root-only; level 0 <=> root = sender; on every live D link of the peer), "
     "disconnect(peer, close|abort), connect_fail(peer, refuse|hang: next direct connect of the client to it), "
     "limits(ParentMinSpeed+ParentSpeedRatio, own speed answered to GetUserStats: documented child limit 0/1/3/11, "
-    "acceptance off/on), reset (ResetDistributed), session_loss (server RST, optionally 1-2 peer events while the client has no session, then connect_server + login). Per case: "
-    "connect mode race|fallback, per peer reaction to a relayed ConnectToPeer (pierce|cannot|ignore). First 64 "
-    "cases: 32 hand-written sequences of length 1-5 (x both connect modes) so that the lowest-numbered witness is a "
+    "acceptance off/on), reset (ResetDistributed), session_loss (server RST; optionally 1-2 peer events applied "
+    "while the client has no session; then connect_server + login by the harness, reconnect.auto is off). Per case: "
+    "connect mode race|fallback, per peer reaction to a relayed ConnectToPeer (pierce|cannot|ignore). First 66 "
+    "cases: 33 hand-written sequences of length 1-5 (x both connect modes) so that the lowest-numbered witness is a "
     "short one; then seeded sequences whose length is non-decreasing in the case number (2..10). Even cases "
     "separate events by 0.5 virtual s of quiescence (history quantifier); odd cases fire bursts of 2-4 events with "
     "gaps of 0-3 loop yields / 1-8 ms, every remote party applying its own events in order (schedule quantifier), "
@@ -27,7 +28,13 @@ RULE = (
     "event has been settled in the current session); last BranchLevel/BranchRoot/ToggleParentSearch of the "
     "current server session and last DistributedBranchLevel/Root on each child's link == position derived from "
     "the fold of the frames the client processed on the current parent's connection. A mismatch is reported once "
-    "(re-reported only when expectation or told values change). Non-trivial: a parent was set at least once; "
+    "(re-reported only when expectation or told values change), under position:<server|child>:<first wrong field>:"
+    "<situation>, situation = what happened since the previous quiescent check (no-parent, parent-set, "
+    "parent-update, parent-lost, after-reset, after-relogin[:parent-lost|parent-set|parent-update]); a child that "
+    "was never told anything: position:child:never-told:<situation>; server values equal to the position derived "
+    "from an EARLIER announcement of the current parent: position:server-not-told-after-parent-update. Logged "
+    "handler exceptions / loop exceptions: safety:<exception>:<raising function>:under:<handler>. Non-trivial: a "
+    "parent was set at least once; "
     "distinct = mode + abstract event sequence with the role (parent/child/candidate) of the acting peer.")
 ASSUMPTIONS = [
     "who the parent / the children are is read from the client's own DistributedNetwork.parent / .children; the "
@@ -46,13 +53,13 @@ ASSUMPTIONS = [
     "class-level wrappers on DistributedNetwork._add_child/_set_parent/_unset_parent only record and call through",
 ]
 MIN_OBS = {
-    'quick': {'sequences': 400, 'events_applied': 2000, 'quiescence_checks': 1500, 'add_child_observed': 200,
+    'quick': {'sequences': 410, 'events_applied': 2000, 'quiescence_checks': 1500, 'add_child_observed': 200,
               'position_checks': 2000, 'parents_set': 170},
     'thorough': {'sequences': 14500, 'events_applied': 70000, 'quiescence_checks': 55000, 'add_child_observed': 7000,
                  'position_checks': 70000, 'parents_set': 6000},
 }
 SHARD_TIMEOUT = {'quick': 600, 'thorough': 5400}
-N_RANDOM = {'quick': 360, 'thorough': 15000}
+N_RANDOM = {'quick': 354, 'thorough': 15000}
 WHAT_FAILS = {
     'parent-is-also-child': 'the parent peer object is also in the list of children',
     'parent-or-child-connection-dead': 'parent or child whose connection is not open at a quiescent moment',
@@ -63,6 +70,9 @@ WHAT_FAILS = {
     'position:server:': 'branch level / root / parent search last told to the server differ from the derived position',
     'position:child:': 'branch level / root last told to a child differ from the derived position',
     'candidates-not-closed-after-parent-set': 'another peer that announced level and root stays connected',
+    'position:child:never-told': 'a peer was added as child but never told a branch level',
+    'safety:AttributeError:_get_advertised_branch_values': 'a distributed handler raised because the advertised '
+                                                           'position needs a session and there was none',
 }
 
 
